@@ -6,6 +6,9 @@ package main
 // chosen Subject Key Identifiers, free ports.
 
 import (
+	"crypto"
+	"crypto/ed25519"
+	"crypto/rsa"
 	"crypto/ecdsa"
 	"crypto/elliptic"
 	"crypto/rand"
@@ -171,8 +174,10 @@ func (m *fakeMdns) withdraw(ski string) {
 // ---------------------------------------------------------------- certificates
 
 type certSpec struct {
-	ski    []byte // nil: no extension at all; otherwise these bytes
-	useKey bool   // ski = SHA-1 of the key (ignores ski)
+	ski    []byte   // nil: no extension at all; otherwise these bytes
+	useKey bool     // ski = SHA-1 of the key (ignores ski)
+	alg    string   // "" / "ecdsa", "ed25519", "rsa"
+	chain  [][]byte // further certificates presented after the leaf
 }
 
 type madeCert struct {
@@ -182,40 +187,54 @@ type madeCert struct {
 }
 
 func makeCert(spec certSpec, cn string) (*madeCert, error) {
-	priv, err := ecdsa.GenerateKey(elliptic.P256(), rand.Reader)
-	if err != nil {
-		return nil, err
-	}
-	pk, err := priv.PublicKey.ECDH()
-	if err != nil {
-		return nil, err
-	}
-	h := sha1.Sum(pk.Bytes())
-	ski := spec.ski
-	if spec.useKey {
-		ski = h[:]
+	var priv crypto.Signer
+	sigAlg := x509.ECDSAWithSHA256
+	schemes := []tls.SignatureScheme{tls.ECDSAWithP256AndSHA256}
+	switch spec.alg {
+	case "ed25519":
+		_, k, err := ed25519.GenerateKey(rand.Reader)
+		if err != nil {
+			return nil, err
+		}
+		priv, sigAlg, schemes = k, x509.PureEd25519, []tls.SignatureScheme{tls.Ed25519}
+	case "rsa":
+		k, err := rsa.GenerateKey(rand.Reader, 2048)
+		if err != nil {
+			return nil, err
+		}
+		priv, sigAlg, schemes = k, x509.SHA256WithRSA, []tls.SignatureScheme{tls.PSSWithSHA256, tls.PKCS1WithSHA256}
+	default:
+		k, err := ecdsa.GenerateKey(elliptic.P256(), rand.Reader)
+		if err != nil {
+			return nil, err
+		}
+		priv = k
 	}
 	serial, _ := rand.Int(rand.Reader, big.NewInt(1<<62))
-	tmpl := x509.Certificate{
-		SignatureAlgorithm:    x509.ECDSAWithSHA256,
-		SerialNumber:          serial,
-		Subject:               pkix.Name{CommonName: cn, Organization: []string{"verif"}},
-		NotBefore:             time.Now().Add(-time.Hour),
-		NotAfter:              time.Now().Add(24 * time.Hour),
-		KeyUsage:              x509.KeyUsageDigitalSignature,
-		BasicConstraintsValid: true,
-		IsCA:                  false, // a CA template would get an identifier generated when none is given
-		SubjectKeyId:          ski,
+	mk := func(ski []byte) ([]byte, *x509.Certificate, error) {
+		tmpl := x509.Certificate{
+			SignatureAlgorithm:    sigAlg,
+			SerialNumber:          serial,
+			Subject:               pkix.Name{CommonName: cn, Organization: []string{"verif"}},
+			NotBefore:             time.Now().Add(-time.Hour),
+			NotAfter:              time.Now().Add(24 * time.Hour),
+			KeyUsage:              x509.KeyUsageDigitalSignature,
+			BasicConstraintsValid: true,
+			IsCA:                  false, // a CA template would get an identifier generated when none is given
+			SubjectKeyId:          ski,
+		}
+		der, err := x509.CreateCertificate(rand.Reader, &tmpl, &tmpl, priv.Public(), priv)
+		if err != nil {
+			return nil, nil, err
+		}
+		leaf, err := x509.ParseCertificate(der)
+		return der, leaf, err
 	}
-	der, err := x509.CreateCertificate(rand.Reader, &tmpl, &tmpl, &priv.PublicKey, priv)
+	der, leaf, err := mk(spec.ski)
 	if err != nil {
 		return nil, err
 	}
-	leaf, err := x509.ParseCertificate(der)
-	if err != nil {
-		return nil, err
-	}
-	// recompute the hash the way a verifier would: over the BIT STRING of the SPKI
+	// the hash a verifier computes: over the BIT STRING of the SPKI
 	var spki struct {
 		Algorithm pkix.AlgorithmIdentifier
 		PublicKey asn1.BitString
@@ -224,8 +243,13 @@ func makeCert(spec certSpec, cn string) (*madeCert, error) {
 		return nil, err
 	}
 	kh := sha1.Sum(spki.PublicKey.RightAlign())
+	if spec.useKey {
+		if der, leaf, err = mk(kh[:]); err != nil {
+			return nil, err
+		}
+	}
 	return &madeCert{
-		tls:     tls.Certificate{Certificate: [][]byte{der}, PrivateKey: priv, SupportedSignatureAlgorithms: []tls.SignatureScheme{tls.ECDSAWithP256AndSHA256}},
+		tls:     tls.Certificate{Certificate: append([][]byte{der}, spec.chain...), PrivateKey: priv, SupportedSignatureAlgorithms: schemes},
 		ext:     leaf.SubjectKeyId,
 		keyHash: kh[:],
 	}, nil
